@@ -59,6 +59,14 @@ m("M28b", "C20", "G-promote", ("x/node/keeper/msg_server_reset.go", "if found &&
 m("M-demote1", "C20", "G-demote", ("x/node/keeper/hooks.go", "\t\t\tif !found || pledge.TotalStorage < hook.k.VstorageThreshold(ctx) {\n\t\t\t\tif node.Role == types.NODE_SUPER {\n\t\t\t\t\thook.k.SetNormalNode(ctx, node.Creator)\n\t\t\t\t}\n\t\t\t\tcontinue", "\t\t\tif !found || pledge.TotalStorage < hook.k.VstorageThreshold(ctx) {\n\t\t\t\tcontinue"))
 m("M-demote2", "C20", "G-demote", ("x/node/keeper/msg_server_remove_vstorage.go", "\t// check super node\n\tif pledge.TotalStorage < k.VstorageThreshold(ctx) {", "\t// check super node\n\tif pledge.TotalStorage+size.Int64() < k.VstorageThreshold(ctx) {"))
 m("M-reset-role", "C20", "G-demote", ("x/node/keeper/msg_server_reset.go", "\tnode.Role = types.NODE_NORMAL\n\tif msg.Status", "\tif msg.Status"))
+# ---------------------------------------------------------------- C15
+m("M23", "C15", "G-elig-1", ("x/node/keeper/node.go", "\t\tif !found || pledge.TotalStorage-pledge.UsedStorage < size {\n\t\t\tcontinue\n\t\t}\n\t\tif status&n.Status == status", "\t\tif !found {\n\t\t\tcontinue\n\t\t}\n\t\t_ = pledge\n\t\tif status&n.Status == status"))
+m("M24", "C15", "T-ignore", ("x/sao/keeper/timeout_management.go", "\t\tsps = append(sps, shard.Sp)\n\t\t// TODO: migrating timeout\n\t\tif shard.Status == ordertypes.ShardWaiting {\n", "\t\t// TODO: migrating timeout\n\t\tif shard.Status == ordertypes.ShardWaiting {\n\t\t\tsps = append(sps, shard.Sp)\n"))
+m("M-distinct", "C15", "G-distinct", ("x/node/keeper/reputation.go", "\t\tif duplicate {\n\t\t\tcontinue\n\t\t}", "\t\tif duplicate && total > 64 {\n\t\t\tcontinue\n\t\t}"))
+m("M-replica", "C15", "G-replica", ("x/sao/keeper/msg_server_store.go", "\t\tif int(order.Replica) > len(sps) {\n\t\t\treturn nil, sdkerrors.Wrapf(types.ErrInvalidReplica, \"replica should <= %d\", len(sps))\n\t\t}\n\t} else {", "\t} else {"))
+m("M-elig2", "C15", "G-elig-2", ("x/node/keeper/node.go", "if !found || pledge.TotalStorage-pledge.UsedStorage < size {\n\t\t\t\ttoIgnore = true", "if !found || pledge.TotalStorage < size {\n\t\t\t\ttoIgnore = true"))
+m("M-elig2b", "C15", "G-elig-2", ("x/node/keeper/node.go", "\t\t\t\tif ig == snodes[i].Creator {\n\t\t\t\t\ttoIgnore = true\n\t\t\t\t\tbreak", "\t\t\t\tif ig == snodes[i].Creator && len(ignore) > 1 {\n\t\t\t\t\ttoIgnore = true\n\t\t\t\t\tbreak"))
+m("M-provenance", "C15", "T-provenance", ("x/node/keeper/reputation.go", "\tnodes := k.GetAllNodesByStatusAndReputationAndRole(ctx, uint32(types.NODE_NORMAL), status, 8000.0, size)\n", "\tnodes := k.GetAllNodesByStatusAndReputationAndRole(ctx, uint32(types.NODE_NORMAL), status, 8000.0, size)\n\tif len(nodes) == 0 {\n\t\tnodes = k.GetAllNodesByStatus(ctx, status)\n\t}\n"))
 # ---------------------------------------------------------------- C01 / C03
 m("M17", "C03", "D3", ("x/node/keeper/node.go", "func (k Keeper) SetNode(ctx sdk.Context, node types.Node) {\n",
    "var nodeCache = map[string]types.Node{}\n\nfunc (k Keeper) SetNode(ctx sdk.Context, node types.Node) {\n\tnodeCache[node.Creator] = node\n"))
@@ -94,6 +102,8 @@ P = [
  ("S-C10-a1", "C10", "G-payer", "/verif/seeded/C10-a1/patch.diff"),
  ("S-C18-a1", "C18", "E6-all", "/verif/seeded/C18-a1/patch.diff"),
  ("S-C19-a1", "C19", "G-fault", "/verif/seeded/C19-a1/patch.diff"),
+ ("S-C17-a1", "C17", "G-upd", "/verif/seeded/C17-a1/patch.diff"),
+ ("S-C20-a1", "C20", "G-promote", "/verif/seeded/C20-a1/patch.diff"),
 ]
 for (id, prop, rule, path) in P:
     M.append((id, prop, rule, [("@patch", path, "")]))
